@@ -394,6 +394,63 @@ theorem decide_spec (c : Cfg) (e : Env) (left : List Nat) (t : Nat) (r : Decisio
           · dec_triv
           · dec_triv
 
+/-- why `decide` says wait -/
+theorem decide_wait_reason (c : Cfg) (e : Env) (left : List Nat) (t : Nat) (e' : Env) (hself : t ∉ c.depsOf t)
+    (h : decide c e left t = (.wait, e')) :
+    ∃ d ∈ c.depsOf t, d ∈ left ∨ e.entry d = none ∨ (∃ x, e.entry d = some x ∧ x.st = .pending) ∨
+      (∃ x, e.entry d = some x ∧ x.st = .waiting) := by
+  unfold decide at h
+  simp only at h
+  by_cases h1 : (c.depsOf t).any (fun d => left.contains d || (e.entry d).isNone || e.isSt d .pending) = true
+  · simp only [List.any_eq_true, Bool.or_eq_true, List.contains_eq_mem, decide_eq_true_eq, Option.isNone_iff_eq_none] at h1
+    obtain ⟨d, hd, hr⟩ := h1
+    refine ⟨d, hd, ?_⟩
+    rcases hr with (hr | hr) | hr
+    · exact Or.inl hr
+    · exact Or.inr (Or.inl hr)
+    · exact Or.inr (Or.inr (Or.inl ((isSt_iff _ _ _).1 hr)))
+  · rw [if_neg h1] at h
+    split at h
+    · cases h
+    · split at h
+      · split at h
+        · cases h
+        · split at h
+          · split at h <;> cases h
+          · cases h
+      · split at h
+        · cases h
+        · rename_i hnd hall
+          -- not every dependency is final: one of them is waiting (the others were excluded by the first test)
+          have hex : ∃ d ∈ c.depsOf t, ¬ ((((e.touch t).setSt t .waiting).isSt d .done = true ∨
+              ((e.touch t).setSt t .waiting).isSt d .failed = true) ∨ ((e.touch t).setSt t .waiting).isSt d .skipped = true) := by
+            apply Classical.byContradiction
+            intro hno
+            apply hall
+            simp only [List.all_eq_true, Bool.or_eq_true]
+            intro d hd
+            apply Classical.byContradiction
+            intro hc
+            exact hno ⟨d, hd, hc⟩
+          obtain ⟨d, hd, hnf⟩ := hex
+          simp only [List.any_eq_true, not_exists, not_and, Bool.or_eq_true, List.contains_eq_mem, decide_eq_true_eq,
+            Option.isNone_iff_eq_none, not_or] at h1
+          obtain ⟨⟨_, hpres⟩, hnp⟩ := h1 d hd
+          refine ⟨d, hd, Or.inr (Or.inr (Or.inr ?_))⟩
+          have hdt : d ≠ t := fun e => hself (e ▸ hd)
+          have hfr : ((e.touch t).setSt t .waiting).entry d = e.entry d := by
+            rw [entry_setSt_other _ _ _ _ hdt]; exact entry_touch_other e t d hdt
+          cases hx : e.entry d with
+          | none => exact absurd hx hpres
+          | some x =>
+            refine ⟨x, rfl, ?_⟩
+            cases hs : x.st with
+            | waiting => rfl
+            | pending => exact absurd ((isSt_iff _ _ _).2 ⟨x, hx, hs⟩) hnp
+            | done => exfalso; apply hnf; left; left; rw [isSt_iff]; exact ⟨x, by rw [hfr, hx], hs⟩
+            | failed => exfalso; apply hnf; left; right; rw [isSt_iff]; exact ⟨x, by rw [hfr, hx], hs⟩
+            | skipped => exfalso; apply hnf; right; rw [isSt_iff]; exact ⟨x, by rw [hfr, hx], hs⟩
+
 /-- reachable states -/
 inductive Reach (c : Cfg) (s0 : State) : State → Prop
   | init : Reach c s0 s0
